@@ -284,6 +284,8 @@ DoRead(off, n) ==
 Positions == IF SimMode THEN {disc, (disc + Len(log)) \div 2, (F * (Len(log) \div F)), Max(disc, Len(log) - 1), Len(log),
                               impl.cur * F + impl.a.fo, impl.cur * F + impl.a.fo + 1}
              ELSE 0..Len(log)
+\* (simulation only: while flushed-unsynced bytes are buffered, every position of the unflushed tail is a likely rewind target)
+TailPositions == IF SimMode /\ impl.a.fl > 0 THEN (impl.cur * F + impl.a.fo)..(Size(impl) - 1) ELSE {}
 \* SetOffset(p) takes the in-memory branch while flushed but unsynced bytes are still held in the write buffer (retryable
 \* sync): the new wbufUnwrittenOffset has to account for the flushed window.  Recorded in the history (field b) so that
 \* the replay can count how often the real code was driven through this branch.
@@ -345,8 +347,9 @@ Next ==
   \/ \E n \in 1..MaxApp : DoAppend(n)
   \/ \E off \in ReadOffs : \E n \in ReadLens(off) : DoRead(off, n)
   \/ \E p \in Positions : \E w \in Wt(2) : DoSetOffset(p)
+  \/ \E p \in TailPositions : DoSetOffset(p)
   \/ \E p \in IF SimMode THEN {(disc + Len(log)) \div 2, F * (Len(log) \div F)} ELSE Positions : DoDiscard(p)
-  \/ \E w \in Wt(IF Retry THEN 6 ELSE 3) : DoFlush      \* (retryable sync: Flush without Sync keeps the flushed window buffered)
+  \/ \E w \in Wt(IF Retry THEN 6 ELSE 3) : DoFlush
   \/ \E w \in Wt(2) : DoSync
   \/ DoReopen
   \/ DoSwitchRO \/ DoCopy
